@@ -37,7 +37,7 @@ var wgSpecs = map[string]*wgSpec{
 			"(edge = target +1 on a hop, no R# placeholder, no empty map). Non-trivial = the library accepted the model and it has a tuple cycle or an intersection/exclusion " +
 			"and some finite weight >= 2; distinct by model content. Bounded exhaustive part: a small universe (user; doc with p:[doc] and relations a, b each defined by one of 8 leaf forms or a binary operator over two of them: 200 x 200 = 40 000 models) under ALL DFS start orders; quick enumerates every 16th model, thorough the complete universe split over the 16 processes.",
 		aspects: map[string]bool{"weights": true},
-		opts:    gen.GraphOpts{MultiThis: true, DupRestr: true, Interlock: true, Names: true, Deep: true, Depth3: true, SingleChild: true, NoRestr: true},
+		opts:    gen.GraphOpts{MultiThis: true, DupRestr: true, Interlock: true, Names: true, Deep: true, Depth3: true, SingleChild: true, NoRestr: true, Scale: true, SparseMeta: true},
 		maxExh:  5, nRand: 16, builds: 4,
 		nontriv: func(res *wgResult, m *gen.Model) bool {
 			if !res.Accepted {
@@ -62,10 +62,10 @@ var wgSpecs = map[string]*wgSpec{
 			"predicate (tuple-free cycle by SCC over non-hop edges, operator on a cycle, TTU preconditions, empty intersection, no terminal type, exit-less cycle); error " +
 			"must wrap one of the three sentinel errors. Non-trivial = the model has at least one cycle of any kind; distinct by model content. Bounded exhaustive part: a small universe (user; doc with p:[doc] and relations a, b each defined by one of 8 leaf forms or a binary operator over two of them: 200 x 200 = 40 000 models) under ALL DFS start orders; quick enumerates every 16th model, thorough the complete universe split over the 16 processes.",
 		aspects: map[string]bool{"verdict": true},
-		opts:    gen.GraphOpts{MultiThis: true, Hazards: true, CycleBoost: true, Names: true, Deep: true, Depth3: true, SingleChild: true, NoRestr: true},
+		opts:    gen.GraphOpts{MultiThis: true, Hazards: true, CycleBoost: true, Names: true, Deep: true, Depth3: true, SingleChild: true, NoRestr: true, Scale: true, SparseMeta: true},
 		// "every well-founded model is accepted" needs well-founded models: a third of the cases come from the
 		// acceptance-oriented profile of C04 (interlocking tuple cycles, no hazards)
-		altOpts: &gen.GraphOpts{MultiThis: true, DupRestr: true, Interlock: true, Names: true, Deep: true, Depth3: true},
+		altOpts: &gen.GraphOpts{MultiThis: true, DupRestr: true, Interlock: true, Names: true, Deep: true, Depth3: true, Scale: true, SparseMeta: true},
 		maxExh:  6, nRand: 24, builds: 6,
 		nontriv: func(res *wgResult, m *gen.Model) bool { return res.G.Err == "" && res.G.HasAnyCycle() },
 		require: map[string]float64{"model:has-cycle": 0.25, "spec:accepted": 0.08, "spec:rejected:tuple-free-rewrite-cycle": 0.05,
@@ -79,7 +79,7 @@ var wgSpecs = map[string]*wgSpec{
 			"(operators by structural path), per node the ORDERED edge list with kind, target, 'type#tupleset' label and ordered condition list; nothing extra; model " +
 			"unchanged (proto.Equal with a clone). Non-trivial = accepted model with an operator and a de-duplicated edge or a multi-parent TTU; distinct by model content. Bounded exhaustive part: a small universe (user; doc with p:[doc] and relations a, b each defined by one of 8 leaf forms or a binary operator over two of them: 200 x 200 = 40 000 models) under ALL DFS start orders; quick enumerates every 16th model, thorough the complete universe split over the 16 processes.",
 		aspects: map[string]bool{"structure": true, "purity": true},
-		opts:    gen.GraphOpts{MultiThis: true, DupRestr: true, Names: true, Depth3: true, SingleChild: true, NoRestr: true},
+		opts:    gen.GraphOpts{MultiThis: true, DupRestr: true, Names: true, Depth3: true, SingleChild: true, NoRestr: true, Scale: true, SparseMeta: true},
 		maxExh:  3, nRand: 1, builds: 2,
 		nontriv: func(res *wgResult, m *gen.Model) bool {
 			return res.Accepted && (res.G.DedupedEdges > 0 || res.G.MultiParentTTU > 0) && hasClass(wgClasses(res, m), "model:has-operator")
@@ -93,7 +93,7 @@ var wgSpecs = map[string]*wgSpec{
 			"reachability of T:* nodes in an independent reference graph; no duplicates. Non-trivial = accepted model with >= 2 wildcard restrictions and a tuple cycle; " +
 			"distinct by model content. Bounded exhaustive part: a small universe (user; doc with p:[doc] and relations a, b each defined by one of 8 leaf forms or a binary operator over two of them: 200 x 200 = 40 000 models) under ALL DFS start orders; quick enumerates every 16th model, thorough the complete universe split over the 16 processes.",
 		aspects: map[string]bool{"wildcards": true},
-		opts:    gen.GraphOpts{MultiThis: true, WildBoost: true, Interlock: true, Names: true, Depth3: true, SingleChild: true},
+		opts:    gen.GraphOpts{MultiThis: true, WildBoost: true, Interlock: true, Names: true, Depth3: true, SingleChild: true, Scale: true, SparseMeta: true},
 		maxExh:  5, nRand: 16, builds: 4,
 		nontriv: func(res *wgResult, m *gen.Model) bool {
 			return res.Accepted && hasClass(wgClasses(res, m), "model:two-or-more-wildcards") && wgHasInfinite(res)
